@@ -830,6 +830,78 @@ fn main() {
         },
     );
 
+    // ------------------------------------------------------------------ rejected batches
+    // "rejected" has to mean something: a batch that is refused for ANY reason (here: one more
+    // template that does not parse, after or before the graph's templates) must leave none of
+    // its templates behind, or a cyclic / dangling graph gets in without ever being checked.
+    let rsp_owned = Space::new("n3s", Naming::plain(3), spec_n3s.clone());
+    let rsp = &rsp_owned;
+    run.family(
+        Family::new(
+            "rejected-batch",
+            rsp.items,
+            &format!(
+                "every graph of the structure alphabet handed over in one batch together with a template that does not parse (as last and as first element), on a pristine instance and on one already holding an accepted template `keep`: the call must fail, `keep` must stay the only template, and every template that is nevertheless left behind is rendered (a crash of that render is reported with the graph); {}",
+                rsp.bounds()
+            ),
+        )
+        .budget(safety_s)
+        .describe(|item| {
+            let idx = rsp.idx(item);
+            describe_graph(&rsp.nm, &rsp.tpls(&idx), &rsp.sources(&idx), &rsp.facts(&idx))
+        })
+        .crash_signature(|item, kind| {
+            let idx = rsp.idx(item);
+            let what = if kind == "hang" { "hang" } else { "overflow" };
+            format!("rejected-batch-leftover-render-{what}:{}", crash_class(&rsp.nm, &rsp.tpls(&idx), &rsp.facts(&idx)))
+        }),
+        |item, acc: &mut Acc| {
+            let idx = rsp.idx(item);
+            let f = rsp.facts(&idx);
+            let srcs = rsp.sources(&idx);
+            let broken = ("zz-broken", "{% if");
+            for (variant, broken_first) in [("broken-last", false), ("broken-first", true)] {
+                for with_keep in [false, true] {
+                    let mut t = rsp.proto.clone();
+                    if with_keep {
+                        t.add_raw_template("keep", "K").expect("a plain template registers");
+                    }
+                    let mut batch: Vec<(&str, &str)> = rsp.nm.names.iter().map(|n| n.as_str()).zip(srcs.iter().copied()).collect();
+                    if broken_first { batch.insert(0, broken) } else { batch.push(broken) }
+                    let r = mccore::engine::guarded(|| t.add_raw_templates(batch.clone()));
+                    let case = || {
+                        json!({"graph": describe_graph(&rsp.nm, &rsp.tpls(&idx), &srcs, &f), "batch": batch, "already_registered": if with_keep { vec!["keep"] } else { vec![] }})
+                    };
+                    match r {
+                        Ok(Err(_)) => {}
+                        Ok(Ok(())) => {
+                            acc.violation(&format!("rejected-batch:{variant}:accepted"), "a batch containing a template that does not parse was accepted".to_string(), case);
+                            continue;
+                        }
+                        Err(p) => {
+                            acc.violation(&format!("rejected-batch:{variant}:panic"), format!("add_raw_templates panicked: {p}"), case);
+                            continue;
+                        }
+                    }
+                    let mut left: Vec<String> = t.get_template_names().map(|s| s.to_string()).collect();
+                    left.sort();
+                    let want: Vec<String> = if with_keep { vec!["keep".to_string()] } else { vec![] };
+                    if left != want {
+                        // render what was left behind: an unchecked cycle shows as a crash of this worker
+                        let ctx = tera::Context::new();
+                        let renders: Vec<String> = left.iter().map(|n| mccore::engine::render(&t, n, &ctx).coarse()).collect();
+                        acc.violation(
+                            &format!("rejected-batch:{variant}:templates-left-behind"),
+                            format!("the refused batch left {left:?} registered (renders: {renders:?})"),
+                            case,
+                        );
+                    }
+                    acc.case(f.edges > 0, &format!("rejected-batch:{variant}:{}", if with_keep { "on-keep" } else { "pristine" }));
+                }
+            }
+        },
+    );
+
     // ------------------------------------------------------------------ chains
     let chain_items = (CHAIN_MAX_NODES * CHAIN_KINDS.len() * CLOSURES.len() * CHAIN_NAMINGS) as u64;
     let chain_parts = |item: u64| {
